@@ -6,19 +6,38 @@ LEAN = os.path.join(os.path.dirname(HERE), 'lean')
 DRV = os.path.join(LEAN, '.lake', 'build', 'bin', 'sqdrv')
 
 
+def _limits():
+    import resource
+    lim = 6 * 1024 ** 3
+    resource.setrlimit(resource.RLIMIT_AS, (lim, lim))
+
+
 def run_model(lines, timeout=3600):
-    """lines: list[str] -> list[str] (same length)"""
+    """lines: list[str] -> list[str] (same length).  If the driver dies on a batch (memory limit, stack
+    overflow), the batch is bisected and the offending line is answered `U model-crash`."""
     if not lines:
         return []
     data = ('\n'.join(lines) + '\n').encode()
-    p = subprocess.run([DRV], input=data, stdout=subprocess.PIPE, stderr=subprocess.PIPE, timeout=timeout)
-    out = p.stdout.decode().split('\n')
+    try:
+        p = subprocess.run([DRV], input=data, stdout=subprocess.PIPE, stderr=subprocess.PIPE, timeout=timeout,
+                           preexec_fn=_limits)
+        out = p.stdout.decode().split('\n')
+        rc = p.returncode
+    except subprocess.TimeoutExpired:
+        out, rc = [], -1
     if out and out[-1] == '':
         out.pop()
-    if p.returncode != 0 or len(out) != len(lines):
-        raise RuntimeError(f'model driver failed rc={p.returncode} got {len(out)} lines for {len(lines)}: '
-                           f'{p.stderr.decode()[:500]}')
-    return out
+    if rc == 0 and len(out) == len(lines):
+        return out
+    if not os.path.exists(DRV):
+        raise RuntimeError('model driver not built: ' + DRV)
+    if len(lines) == 1:
+        return ['U model-crash']
+    good = out[:max(0, len(out) - 1)] if rc != 0 else []
+    # lines answered completely before the crash are kept; the rest is bisected
+    rest = lines[len(good):]
+    mid = max(1, len(rest) // 2)
+    return good + run_model(rest[:mid], min(timeout, 600)) + run_model(rest[mid:], min(timeout, 600))
 
 
 def run_model_parallel(lines, jobs=8, timeout=3600):
